@@ -16,6 +16,8 @@ mod c12;
 mod c13;
 mod c14;
 mod c15;
+mod c16;
+mod c18;
 mod c19;
 mod c20;
 mod gen;
@@ -47,6 +49,9 @@ fn main() {
         "C13" => c13::run(&mut em, &mut rng, thorough),
         "C14" => c14::run(&mut em, &mut rng, thorough),
         "C15" => c15::run(&mut em, &mut rng, thorough),
+        "C16" => c16::run16(&mut em, &mut rng, thorough),
+        "C17" => c16::run17(&mut em, &mut rng, thorough),
+        "C18" => c18::run(&mut em, &mut rng, thorough),
         "C19" => c19::run(&mut em, &mut rng, thorough),
         "C20" => c20::run(&mut em, &mut rng, thorough),
         _ => { eprintln!("unknown property {}", prop); std::process::exit(2); }
